@@ -73,14 +73,26 @@ def gen(tier, rnd):
         triggers = {}
         for k in range(rnd.choice([0, 1, 2, 4])):
             triggers[k + 1] = g.tree(rnd.choice([0, 1, 2, 4]))
-        reuse = rnd.random() < 0.25
+        if c % 7 == 3:
+            # many commands in flight at once: a wide batch of quick commands, and more blocked commands than any
+            # plausible pool size, followed by one that must still run
+            wide = [g.leaf(allow_block=False) for _ in range(rnd.choice([18, 24, 40]))]
+            blocked = []
+            for _ in range(rnd.choice([17, 20, 33])):
+                lf = g.leaf()
+                g.leaves[lf["id"]]["block"] = lf["block"] = "forever"
+                blocked.append(lf)
+            triggers = {1: {"id": 0, "batch": wide}, 2: {"id": 0, "batch": blocked}, 3: g.leaf(allow_block=False)}
+        nil_paths = c % 4 == 1
+        reuse = rnd.random() < 0.25 and c % 7 != 3
         if reuse:
             # two consecutive Updates, each returning a batch built in the model's scratch buffer
             triggers = {}
             for k in range(2):
                 kids = [g.leaf(allow_block=False) for _ in range(rnd.choice([2, 3]))]
                 triggers[k + 1] = {"id": 0, "batch": kids, "reuse": True}
-        cases.append({"init": init, "triggers": triggers, "leaves": g.leaves, "reuse": reuse, "gomaxprocs": rnd.choice([0, 0, 0, 1, 4])})
+        cases.append({"init": init, "triggers": triggers, "leaves": g.leaves, "reuse": reuse, "gomaxprocs": rnd.choice([0, 0, 0, 1, 4]),
+                      "nil_paths": nil_paths})
     return cases
 
 
@@ -99,6 +111,12 @@ def scenarios(cases):
         else:
             for k in c["triggers"]:
                 script.append(P.DO("send", msg=P.U(k)))
+        if c.get("nil_paths"):
+            # nil by the paths that do not go through the dispatcher: Send(nil), a nil result inside a Sequence, and
+            # a nil result of a batch inside a Sequence
+            script += [P.DO("send", msg=P.B("nil")),
+                       P.DO("send", msg=P.B("sequence", cmds=[P.cmd(8001), P.cmd(8002, ret=P.U(8802)), {"id": 0, "batch": [P.cmd(8003), P.cmd(8004, ret=P.U(8804))]}])),
+                       P.DO("sleep", us=3000)]
         script += [P.W("idle"), P.DO("send", msg=P.U(9999)), P.W("idle"), P.DO("gate", name="g"), P.DO("sleep", us=25000), P.W("idle"), P.DO("quit"), P.W("returned")]
         s = P.scenario(i, script, opts={"fps": 120}, init=c["init"], update=upd, watchdog_ms=5000)
         if c["gomaxprocs"]:
@@ -120,7 +138,7 @@ def analyse(c, r):
     probs = []
     evs = r["events"]
     loop_g = {e["g"] for e in evs if e["ev"] in ("UpdateBegin", "InitBegin", "ViewBegin")}
-    starts = [e for e in evs if e["ev"] == "CmdStart"]
+    starts = [e for e in evs if e["ev"] == "CmdStart" and e["id"] < 8000]     # (8000+: the fixed nil-path sequence)
     exp = sorted(expected_leaves(c))
     got = sorted(e["id"] for e in starts)
     if got != exp:
@@ -153,7 +171,7 @@ def analyse(c, r):
 
 
 def coq_row(i, c, r):
-    evs = r["events"]
+    evs = [e for e in r["events"] if not (e["ev"] in ("CmdStart", "CmdEnd") and e["id"] >= 8000)]
     order = [e["id"] for e in evs if e["ev"] == "CmdStart"]
     idx = {}
     for j, cid in enumerate(order):
